@@ -220,7 +220,7 @@ class _Gen:
     # -- settings
     REPEATABLE = {
         'callback': ('k0', 'k1', 'D'),
-        'solver': ('cg1', 'cg40', 'cg41', 'cg500'),
+        'solver': ('cg1', 'cg40', 'cg41', 'cg500', 'cg1!', 'cg40!', 'cg500!', 'gm30', 'bi30'),
         'options': ('S', 'Z'),
         'throw': (True, False),
     }
@@ -255,14 +255,15 @@ class _Gen:
                     kw[name] = 'u'
             elif name == 'solver':
                 if heavy:
-                    pal = ['cg40', 'cg41', 'cg500']
+                    # other solver classes rarely (each costs a compile); '!' = a fresh, equal instance
+                    pal = ['cg40', 'cg41', 'cg500', 'cg40!', 'cg500!', 'cg40', 'cg41', 'cg500'] + (['gm30', 'bi30'] if rng.random() < 0.15 else [])
                     if not self.sw['no_cg1']:
-                        pal += ['cg1', 'cg1']
+                        pal += ['cg1', 'cg1', 'cg1!']
                     kw[name] = rng.choice(pal)
                 else:
-                    # light runs never apply, so palette solvers (repeatable values; cg500 equals the
-                    # default) cost nothing there
-                    kw[name] = 'u' if rng.random() < 0.6 else rng.choice(['cg40', 'cg500', 'cg500', 'cg1'])
+                    # light runs never apply, so any solver class and palette values (repeatable; cg500
+                    # equals the default) cost nothing there
+                    kw[name] = rng.choice(['u', 'u', 'u', 'ug', 'ub']) if rng.random() < 0.6 else rng.choice(['cg40', 'cg500', 'cg500!', 'cg1', 'cg40!', 'gm30', 'bi30'])
             elif name == 'throw':
                 allow_true = bool(self.faults and 'solver_fail' in self.faults) or self.sw['no_cg1']
                 kw[name] = (rng.random() < 0.5) if allow_true else False
